@@ -5,14 +5,14 @@ Ltac splits_ := repeat match goal with |- _ /\ _ => split end.
 (* examples/eda/src/ast.rs *)
 Section E.
   Variable T : Type.
-  Inductive bx := BTerm (t : T) | BNot (a : bx) | BAnd (a b : bx) | BOr (a b : bx) | BXor (a b : bx) | BIte (a b c : bx).
-  Inductive kind := KTerm (t : T) | KNot | KAnd | KOr | KXor | KIte.
+  Inductive bx := BxTerm (t : T) | BxNot (a : bx) | BxAnd (a b : bx) | BxOr (a b : bx) | BxXor (a b : bx) | BxIte (a b c : bx).
+  Inductive kind := NTerm (t : T) | NNot | NAnd | NOr | NXor | NIte.
   Definition bkind (e : bx) : kind :=
-    match e with BTerm t => KTerm t | BNot _ => KNot | BAnd _ _ => KAnd | BOr _ _ => KOr | BXor _ _ => KXor | BIte _ _ _ => KIte end.
+    match e with BxTerm t => NTerm t | BxNot _ => NNot | BxAnd _ _ => NAnd | BxOr _ _ => NOr | BxXor _ _ => NXor | BxIte _ _ _ => NIte end.
   Definition bkids (e : bx) : list bx :=
-    match e with BTerm _ => [] | BNot a => [a] | BAnd a b | BOr a b | BXor a b => [a; b] | BIte a b c => [a; b; c] end.
+    match e with BxTerm _ => [] | BxNot a => [a] | BxAnd a b | BxOr a b | BxXor a b => [a; b] | BxIte a b c => [a; b; c] end.
   (* ExprBoxed::not after the repair: only double negation is simplified *)
-  Definition bnot (v : bx) : bx := match v with BNot i => i | _ => BNot v end.
+  Definition bnot (v : bx) : bx := match v with BxNot i => i | _ => BxNot v end.
 
   (* arena node: kind + child indices (Idx) *)
   Definition ax := (kind * list nat)%type.
@@ -26,8 +26,8 @@ Section E.
       end
     end.
   Fixpoint bsize (e : bx) : nat :=
-    match e with BTerm _ => 1 | BNot a => S (bsize a) | BAnd a b | BOr a b | BXor a b => S (bsize a + bsize b)
-               | BIte a b c => S (bsize a + bsize b + bsize c) end.
+    match e with BxTerm _ => 1 | BxNot a => S (bsize a) | BxAnd a b | BxOr a b | BxXor a b => S (bsize a + bsize b)
+               | BxIte a b c => S (bsize a + bsize b + bsize c) end.
   Definition from_boxed (e : bx) : list ax := expand (bsize e) [e] 0.
 
   (* a catamorphism over boxed trees, and the algebra the arena uses (same closure in the Rust code) *)
@@ -35,12 +35,12 @@ Section E.
   Variable alg : kind -> list R -> R.
   Fixpoint foldB (e : bx) : R :=
     match e with
-    | BTerm t => alg (KTerm t) []
-    | BNot a => alg KNot [foldB a]
-    | BAnd a b => alg KAnd [foldB a; foldB b]
-    | BOr a b => alg KOr [foldB a; foldB b]
-    | BXor a b => alg KXor [foldB a; foldB b]
-    | BIte a b c => alg KIte [foldB a; foldB b; foldB c]
+    | BxTerm t => alg (NTerm t) []
+    | BxNot a => alg NNot [foldB a]
+    | BxAnd a b => alg NAnd [foldB a; foldB b]
+    | BxOr a b => alg NOr [foldB a; foldB b]
+    | BxXor a b => alg NXor [foldB a; foldB b]
+    | BxIte a b c => alg NIte [foldB a; foldB b; foldB c]
     end.
   Lemma foldB_kids e : foldB e = alg (bkind e) (map foldB (bkids e)).
   Proof. destruct e; reflexivity. Qed.
